@@ -54,7 +54,12 @@ def main():
         rc, out = sh(demo, cwd=wt, env=env)
         res["demo_without_change"] = "pass" if rc == 0 else "FAIL"
         res["demo_without_change_tail"] = out[-600:]
-        rc, out = sh(["git", "apply", os.path.join(d, "patch.diff")], cwd=wt)
+        # 3-way first: the patch names its pre-image blobs, so it lands in the right function even after later fix:
+        # commits moved the code (a plain `git apply` can match identical context in a neighbouring function)
+        rc, out = sh(["git", "apply", "--3way", os.path.join(d, "patch.diff")], cwd=wt)
+        if rc != 0:
+            sh(["git", "checkout", "--", "."], cwd=wt)
+            rc, out = sh(["git", "apply", os.path.join(d, "patch.diff")], cwd=wt)
         res["patch_applies"] = rc == 0
         if rc != 0:
             res["patch_error"] = out[-600:]
